@@ -6,7 +6,7 @@
 From Coq Require Import List Arith Bool NArith.
 From Conductor Require Import Model.Loader Model.Planner Model.Exec Model.RunCase Proofs.Compose Proofs.ComposeRun
   Proofs.ExecInv Proofs.ExecTheorems Proofs.ExecMain Proofs.PlannerInv Proofs.PlannerThm Proofs.PlannerExact Proofs.PlannerOrder Proofs.PlanClosure.
-From Conductor Require Import Gen.Generated Proofs.GenTie Proofs.GenTieLowering.
+From Conductor Require Import Gen.Generated Proofs.GenTie Proofs.GenTieLowering Proofs.GenTiePlannerVisit.
 Import ListNotations.
 
 (* Needed = tasks reachable from the root through tasks that run, and that run themselves;
@@ -135,6 +135,24 @@ Theorem C02_lowering_is_the_sources : forall k, exists cls par ver rec ser,
   ver = (match k with KExperiment => true | _ => false end) /\ rec = ver /\ ser = ver.
 Proof. exact lowering_tie. Qed.
 Print Assumptions C02_lowering_is_the_sources.
+
+(* ... and how the closure is walked (the dependency loop of the FIRST visit, TRANSLATED from planner.py on every run): the
+   dependencies are taken in reversed declaration order (the model's pstep hands `rev (t_deps ...)` to push_deps; the
+   translator refuses any other iteration); a dependency that was already visited is LINKED to the visited lowering and not
+   traversed again, any other becomes a new lowering task that is linked and pushed -- so every needed task is lowered once
+   (C02_plan_exact) and every declared dependency becomes an edge (C01_task_edges). *)
+Theorem C02_closure_walk_is_the_sources :
+  gen_first_visit_shares_a_visited_lowering = true /\
+  forall d ds vis st stk deps,
+  push_deps (d :: ds) vis st stk deps =
+  match gen_push_dep (match lookup d vis with Some _ => true | None => false end), lookup d vis with
+  | 0%N, Some v => push_deps ds vis st stk (deps ++ [v])
+  | _, _ =>
+    let j := length st in
+    push_deps ds vis (st ++ [{| lt_task := d; lt_second := false; lt_deps := []; lt_out := Own [] |}]) (j :: stk) (deps ++ [j])
+  end.
+Proof. split; [reflexivity|exact push_deps_step_tie]. Qed.
+Print Assumptions C02_closure_walk_is_the_sources.
 
 (* ... used by the model where the source uses it: on the first visit of a task the planner step
    records it as cached and pops it without pushing its dependencies exactly when the translated
